@@ -146,8 +146,10 @@ structure Expect where
   isNil : Bool
   after : List Plugin
 
-def runModel (specs : List PSpec) (ps : List Plugin) (ev : Nat) (rid : String) : Expect :=
-  let pcs := ps.map fun p => (p, callFor specs ev rid p)
+def runModel (specs : List PSpec) (ps : List Plugin) (ev : Nat) (rid : String) (dying : List String := []) : Expect :=
+  let pcs := ps.map fun p =>
+    if dying.contains (U p.name) then (p, ({ out := .fatal .closed, reached := true, cost := 0 } : Call Items))
+    else (p, callFor specs ev rid p)
   let (res, tr, after) := request merger 1 ev pcs
   let handled := tr.handled.map (U ·.name)
   match res with
@@ -181,8 +183,8 @@ def dupFree : List String → Bool
     plugins that were registered and not disconnected when the request was made; `must` those
     of them that certainly were (for late registrations: known active). Returns a failure
     signature and text. -/
-def specRequest (active must : List PSpec) (ev : Nat) (rid : String) (log : List Inv) (r : Res) :
-    Option (String × String) :=
+def specRequest (active must : List PSpec) (ev : Nat) (rid : String) (log : List Inv) (r : Res)
+    (optional : List String := []) : Option (String × String) :=
   let names := log.map (·.p)
   let find (n : String) := active.find? (·.name == n)
   let bad (sig why : String) : Option (String × String) := some (sig, s!"request {rid} (event {ev}): {why}")
@@ -205,7 +207,10 @@ def specRequest (active must : List PSpec) (ev : Nat) (rid : String) (log : List
     if !missing.isEmpty then bad "missed" s!"subscribed plugins {missing.map (·.name)} were not invoked; invoked {names}"
     else if !vetoers.isEmpty then bad "veto-ignored" s!"{vetoers.map (·.name)} returned an error but the request succeeded"
     else
-      let want := showItems (logged.flatMap fun p => contrib p ev rid)
+      -- a plugin that disconnects while its handler runs is invoked but contributes nothing
+      let counted := logged.filter fun p => !optional.contains p.name ||
+        (contrib p ev rid).all fun (k, v) => r.items.contains (k ++ "=" ++ v)
+      let want := showItems (counted.flatMap fun p => contrib p ev rid)
       if hasReply ev && r.isNil then bad "no-reply" "success without a reply"
       else if want != r.items then bad "foreign-result" s!"reply {r.items}, the responses to this request give {want}"
       else none
@@ -374,6 +379,17 @@ def judgeConc (inp obs : Json) : Except String Verdict := do
   let late ← (← getArr inp "late").zipIdx.mapM fun (j, i) => decSpec (early.length + i) j
   let specs := early ++ late
   let hist ← (← getArr obs "hist").mapM decStamp
+  -- A leaving plugin shuts its connection from inside its After-th handler invocation (so that
+  -- reply is lost and nothing reaches it afterwards). `death`: the stamp of that invocation.
+  let leaveAfter : List (String × Nat) := (← getArr inp "leaving").map fun j =>
+    (getStrD j "name", max 1 (getNatD j "after"))
+  let death (name : String) : Option Nat :=
+    match leaveAfter.find? (·.1 == name) with
+    | none => none
+    | some (_, k) => ((hist.filter (·.plugin == name)).drop (k - 1)).head?.map (·.seq)
+  let leaving := early.filter fun s => (death s.name).isSome
+  let staying := early.filter fun s => (death s.name).isNone
+  let leavingNames := leaving.map (·.name)
   let callersIn ← getArr inp "callers"
   let callersObs ← getArr obs "results"
   if callersIn.length != callersObs.length then throw "callers/results length mismatch"
@@ -401,7 +417,15 @@ def judgeConc (inp obs : Json) : Except String Verdict := do
     -- request that had returned before this one was called
     let seenBefore := late.filter fun lp => reqL.any fun q' =>
       q'.res.t1 < q.res.t0 && q'.stamps.any (·.plugin == lp.name)
-    sp := sp <|> specRequest specs (early ++ seenBefore) q.ev q.rid log q.res
+    let stillThere := leaving.filter fun lp => match death lp.name with
+      | some dth => q.res.t1 < dth
+      | none => true
+    sp := sp <|> specRequest specs (staying ++ stillThere ++ seenBefore) q.ev q.rid log q.res leavingNames
+    -- a plugin that disconnected is never invoked again
+    for lp in leaving do
+      if let some dth := death lp.name then
+        if let some st := q.stamps.find? (fun st => st.plugin == lp.name && st.seq > dth) then
+          sp := sp <|> some ("invoked-after-disconnect", s!"request {q.rid}: plugin {lp.name} closed its connection at tick {dth} and was invoked again at tick {st.seq}")
     if let some s := q.stamps.find? (fun s => s.seq < q.res.t0 || s.seq > q.res.t1) then
       sp := sp <|> some ("outside-call", s!"request {q.rid}: handler of {s.plugin} ran outside the caller's call")
   -- (2) one common order: the union of the plugins' own orders is acyclic
@@ -422,46 +446,60 @@ def judgeConc (inp obs : Json) : Except String Verdict := do
   let interleaved := !dupFree bl
   if interleaved then
     dis := some "invocations of different requests interleave: the relay is not atomic"
-  -- order: stamped requests by first stamp; stamp-less ones right after their caller's previous request
-  let firstSeq (q : CReq) : Option Nat := q.stamps.head?.map (·.seq)
-  let mut keyed : List (Nat × Nat × CReq) := []     -- (major, minor)
-  for q in reqL do
-    let key := match firstSeq q with
-      | some s => (s, 0)
-      | none =>
-        -- walk back over the caller's earlier requests to the nearest stamped one
-        let prev := (reqL.filter fun (q' : CReq) => q'.caller == q.caller && q'.k < q.k).reverse
-        match prev.findSome? firstSeq with
-        | some s => (s, 1 + q.k)
-        | none => (0, 1 + q.k)
-    keyed := (key.1, key.2, q) :: keyed
-  let insK (x : Nat × Nat × CReq) (l : List (Nat × Nat × CReq)) : List (Nat × Nat × CReq) :=
-    let rec go : List (Nat × Nat × CReq) → List (Nat × Nat × CReq)
+  -- Order: requests that reached a handler, at their first stamp. Replaying them on the model
+  -- gives the sequence of plugin lists in force between them. A request that reached nobody
+  -- changes nothing; it is accepted if SOME point inside its caller's bracket (t0, t1) has a
+  -- plugin list on which the model, too, invokes nobody and returns what the caller got.
+  let firstSeq (q : CReq) : Nat := (q.stamps.head?.map (·.seq)).getD 0
+  let insK (x : CReq) (l : List CReq) : List CReq :=
+    let rec go : List CReq → List CReq
       | [] => [x]
-      | y :: ys => if x.1 < y.1 || (x.1 == y.1 && x.2.1 < y.2.1) then x :: y :: ys else y :: go ys
+      | y :: ys => if firstSeq x < firstSeq y then x :: y :: ys else y :: go ys
     go l
-  let ordered := (keyed.foldr insK []).map (·.2.2)
-  let mut plugins : List Plugin := early.foldl (fun ps s => activate ps (mkPlugin s)) []
-  let mut activated : List Nat := early.map (·.id)
-  let mut revealed : List (Nat × Nat) := []
-  let mut overl := false
-  for q in ordered do
-    let names := q.stamps.map (·.plugin)
-    -- a late plugin that shows up for the first time was activated before this relay
-    for lp in late do
-      if names.contains lp.name && !activated.contains lp.id then
-        plugins := activate plugins (mkPlugin lp)
-        activated := lp.id :: activated
-        revealed := []
-    let arr := arrange plugins names
-    let pairs := revealedPairs arr names
-    if pairs.any (fun (a, b) => revealed.contains (b, a)) then
-      dis := dis <|> some s!"request {q.rid}: equal-index plugins changed their order without an activation"
-    let e := runModel specs arr q.ev q.rid
-    dis := dis <|> (cmpExpect e names q.res).map (s!"request {q.rid} (event {q.ev}): " ++ ·)
-    plugins := e.after
-    revealed := pairs ++ revealed
-    if reqL.any (fun q' => q'.caller != q.caller && q'.res.t0 < q.res.t1 && q.res.t0 < q'.res.t1) then overl := true
+  let stamped := (reqL.filter (!·.stamps.isEmpty)).foldr insK []
+  let silent := reqL.filter (·.stamps.isEmpty)
+  let (rep, states) : Option String × List (Nat × List Plugin) := Id.run do
+    let mut d : Option String := none
+    let mut plugins : List Plugin := early.foldl (fun ps s => activate ps (mkPlugin s)) []
+    let mut activated : List Nat := early.map (·.id)
+    let mut revealed : List (Nat × Nat) := []
+    let mut states : List (Nat × List Plugin) := [(0, plugins)]   -- (from this tick on, list), latest first
+    for q in stamped do
+      let names := q.stamps.map (·.plugin)
+      -- a late plugin that shows up for the first time was activated before this relay
+      for lp in late do
+        if names.contains lp.name && !activated.contains lp.id then
+          plugins := activate plugins (mkPlugin lp)
+          activated := lp.id :: activated
+          revealed := []
+      let arr := arrange plugins names
+      let pairs := revealedPairs arr names
+      if pairs.any (fun (a, b) => revealed.contains (b, a)) then
+        d := d <|> some s!"request {q.rid}: equal-index plugins changed their order without an activation"
+      -- the leaving plugins whose last invocation this is: invoked, reply lost, dropped
+      let dying := (leaving.filter fun lp => match death lp.name with
+        | some dth => q.stamps.any fun st => st.plugin == lp.name && st.seq == dth
+        | none => false).map (·.name)
+      let e := runModel specs arr q.ev q.rid dying
+      d := d <|> (cmpExpect e names q.res).map (s!"request {q.rid} (event {q.ev}): " ++ ·)
+      plugins := e.after
+      revealed := pairs ++ revealed
+      states := (firstSeq q, plugins) :: states
+    return (d, states.reverse)
+  dis := dis <|> rep
+  -- states: [(0, l0), (s1, l1), …]: list l_i is in force from relay i (first stamp s_i) to relay i+1
+  let rec windows : List (Nat × List Plugin) → List (Nat × Nat × List Plugin)
+    | (a, l) :: (b, l') :: rest => (a, b, l) :: windows ((b, l') :: rest)
+    | [(a, l)] => [(a, 1000000000, l)]
+    | [] => []
+  let wins := windows states
+  for q in silent do
+    let fits' := wins.any fun (a, b, l) =>
+      a < q.res.t1 && q.res.t0 < b && (cmpExpect (runModel specs l q.ev q.rid) [] q.res).isNone
+    if !fits' then
+      dis := dis <|> some s!"request {q.rid} (event {q.ev}) reached nobody and returned '{q.res.err}' {q.res.items}: at no point of its call does the model do the same"
+  let overl := reqL.any fun q => reqL.any fun q' =>
+    q'.caller != q.caller && q'.res.t0 < q.res.t1 && q.res.t0 < q'.res.t1
   let nInv := hist.length
   pure { agree := dis.isNone, spec := sp.isNone,
          why := match sp, dis with
@@ -469,7 +507,7 @@ def judgeConc (inp obs : Json) : Except String Verdict := do
            | none, some w => w
            | none, none => "",
          sig := match sp with | some (s, _) => "C06:" ++ s | none => "",
-         cover := ["kind:conc", "trace", s!"callers:{lenClass callersIn.length}", s!"late:{late.length}",
+         cover := ["kind:conc", "trace", s!"callers:{lenClass callersIn.length}", s!"late:{late.length}", s!"leaving:{leaving.length}",
                    s!"procs:{getNatD inp "procs"}"] ++ (if overl then ["overlapping-calls"] else ["no-overlap"]) ++
                   (if interleaved then ["interleaved"] else []),
          nontrivial := overl && nInv > 0,
